@@ -46,6 +46,23 @@ def _cotenants(rng, nmax):
 # C05
 # ---------------------------------------------------------------------------
 
+def _band_calls(fns, tier):
+    """Helper calls along the near-diagonal band s = n - delta, delta =
+    1..6, where the unit count is large (beyond 255) and recomputation is
+    still needed: every n in 250..330 (quick) / 250..360 and a sample up to
+    700 (thorough).  They follow the sweep in the same process, so the memo
+    table already holds the small-s entries of the neighbouring n."""
+    ns = list(range(250, 331 if tier == "quick" else 361))
+    if tier == "thorough":
+        ns += [420, 421, 511, 512, 513, 600, 699, 700]
+    ops = []
+    for n in ns:
+        for delta in (1, 2, 3, 4, 6):
+            for fn in fns:
+                ops.append(["call", fn, n, n - delta])
+    return ops
+
+
 class C05(Base):
     ID = "C05"
     TECHNIQUE = ('deterministic simulation: seeded configurations executed on the reference machine inside worlds with co-tenants of the shared memo table; forward-step counter and helper values compared with the Griewank-Walther closed form (reference model validated by exact search); helper and n_advance sweeps')
@@ -90,6 +107,8 @@ class C05(Base):
                 for n in (65537, 2 ** 27 + 3, 10 ** 9 + 7, 3 * 10 ** 12 + 1,
                           2 ** 62 + 1):
                     ops.append(["call", "optimal_steps_binomial", n, 1])
+                # many units: the band just below the diagonal
+                ops += _band_calls(("optimal_steps_binomial",), tier)
             return ListDriver(ops)
         if rng.random() < self.LARGE[tier]:
             N = rng.randint(80, 400)
@@ -239,6 +258,7 @@ class C06(Base):
 
     SWEEP = {"quick": (320, 32), "thorough": (500, 64)}
     LARGE = {"quick": 0.0, "thorough": 0.12}
+    MANY_UNITS = {"quick": 0.02, "thorough": 0.04}
 
     def plan(self, rng, tier, idx):
         nmax, _ = self.SIZES[tier]
@@ -249,6 +269,9 @@ class C06(Base):
                       2 ** 62 + 1):
                 ops.append(["call", "optimal_steps_mixed", n, 1])
                 ops.append(["call", "mixed_step_memoization", n, 1])
+            # many units: the band just below the diagonal
+            ops += _band_calls(("optimal_steps_mixed",
+                                "mixed_step_memoization"), tier)
             return ListDriver(ops)
         others, calls = _cotenants(rng, nmax)
         N = draw_N(rng, nmax, small=max(10, nmax // 6))
@@ -260,6 +283,18 @@ class C06(Base):
             N = rng.randint(100, 320)
             s = rng.randint(4, 28)
             others = []
+        elif rng.random() < self.MANY_UNITS[tier]:
+            # many steps and many units (beyond 255), just below the
+            # diagonal so that some recomputation is still needed; the
+            # co-tenants stay
+            N = rng.randint(258, 340)
+            s = N - rng.randint(2, 6)
+            for _ in range(rng.randint(1, 3)):
+                # the neighbouring step counts with few units, earlier in
+                # the same process
+                calls.insert(0, ["call", rng.choice((
+                    "optimal_steps_mixed", "mixed_step_memoization")),
+                    N + rng.choice((-1, 1, 1, 2)), rng.randint(1, 8)])
         a = ({"cls": "Mixed", "N": N, "p": {"s": s, "storage": "RAM"}}, 1,
              "every")
         b = ({"cls": "Mixed", "N": N, "p": {"s": s, "storage": "DISK"}}, 1,
